@@ -30,7 +30,9 @@ NOTE = (
     "np.histogram itself and adaptive-bin populations are outside the claim; grids with <= 4 nodes, <= 2 proposed events per round, <= 3 rounds"
 )
 TECHNIQUE = "path-forking symbolic execution of the NumPy-based samplers on object arrays of symbolic reals (numpy proxy for digitize/where/histogram), z3 nlsat / LRA per path; random draws are nondeterministic stubs"
-EXPLANATION = CLAIM
+CLAIM_EXTRA = 'A populated histogram bin carries sqrt(sum of its squared weights) also when its weights cancel, and an empty bin carries mask_error.'
+NOTE_EXTRA = ''
+EXPLANATION = CLAIM + " " + CLAIM_EXTRA
 FUNCTIONS = [
     "tf_pwa/generator/linear_interpolation.py:LinearInterp.cal_coeffs", "tf_pwa/generator/linear_interpolation.py:LinearInterp.integral", "tf_pwa/generator/linear_interpolation.py:LinearInterp.solve",
     "tf_pwa/generator/linear_interpolation.py:LinearInterp.__call__", "tf_pwa/generator/breit_wigner.py:BWGenerator.integral", "tf_pwa/generator/breit_wigner.py:BWGenerator.solve",
